@@ -40,7 +40,9 @@ from fractions import Fraction
 from ..absdom import FactFlow, const_number, integer_valued, lin_ratio, linform
 from ..cfg import CFG, Node, build_cfg, def_value, dotted_name, handler_types, resolve_expr
 from ..core import AnalysisError, Report
-from ..index import ClassInfo, dotted, get_index
+from ..index import ClassInfo, dotted, get_index, strip_doc
+
+INTERRUPTS = "pde/trackers/interrupts.py"
 
 INT = "pde/trackers/interrupts.py"
 KNOWN_CLASSES = {"FixedInterrupts", "ConstantInterrupts", "LogarithmicInterrupts", "GeometricInterrupts", "RealtimeInterrupts"}
@@ -542,6 +544,98 @@ def check_double_precision_state(rep: Report, ix) -> None:
     rep.floor("schedule parameters stored by the interrupt constructors", n, 3)
 
 
+def check_initialize_resets_cursor(rep: Report, ix) -> None:
+    """"whatever ... sequence it is asked about": a schedule starts with `initialize(t)`.  Every attribute that `next`
+    (resolved through super().next) re-binds is the cursor state of the schedule; `initialize` (resolved through
+    super().initialize) must assign each of them before it is read -- a call of `self.next(...)` reads them all --
+    otherwise an interrupt object that served an earlier run answers from the old cursor (a re-used geometric schedule
+    starts after the last interrupt of the previous run, a logarithmic one with the grown gap)."""
+    base = ix.cls(INTERRUPTS, "InterruptsBase")
+    for c in ix.subclasses(base, strict=True):
+        if c.module.rel != INTERRUPTS or c.name not in KNOWN_CLASSES - {"RealtimeInterrupts"}:
+            continue
+        mro = c.mro()
+
+        def chain(name):
+            out = []
+            for k in mro:
+                if name in k.methods:
+                    f = k.methods[name][0]
+                    out.append(f)
+                    if not any(isinstance(x, ast.Call) and isinstance(x.func, ast.Attribute) and x.func.attr == name and isinstance(x.func.value, ast.Call) and dotted(x.func.value.func) == "super" for x in ast.walk(f.node)):
+                        break
+            return out
+
+        nexts = chain("next")
+        inits = chain("initialize")
+        if not nexts or not inits:
+            raise AnalysisError(f"{c.ref}: next/initialize not resolvable")
+        cursor = set()
+        for f in nexts:
+            for x in ast.walk(f.node):
+                tg = x.targets if isinstance(x, ast.Assign) else ([x.target] if isinstance(x, (ast.AugAssign, ast.AnnAssign)) else [])
+                for t in tg:
+                    if isinstance(t, ast.Attribute) and is_name(t.value, "self"):
+                        cursor.add(t.attr)
+        # only state that feeds back: attributes `next` also reads (an attribute it merely publishes, like the current gap
+        # `dt` of a fixed list, is output, not cursor)
+        loaded = set()
+        for f in nexts:
+            for x in ast.walk(f.node):
+                if isinstance(x, ast.Attribute) and is_name(x.value, "self") and isinstance(x.ctx, ast.Load):
+                    loaded.add(x.attr)
+                if isinstance(x, ast.AugAssign) and isinstance(x.target, ast.Attribute) and is_name(x.target.value, "self"):
+                    loaded.add(x.target.attr)
+        cursor &= loaded
+        problems: list[tuple[str, str, int]] = []
+
+        def reads(node, defined):
+            for x in ast.walk(node):
+                if isinstance(x, ast.Attribute) and isinstance(x.ctx, ast.Load) and is_name(x.value, "self") and x.attr in cursor and x.attr not in defined:
+                    problems.append((x.attr, f"`self.{x.attr}` is read (`{ast.unparse(node)[:60]}`) before `initialize` has assigned it", getattr(node, "lineno", 0)))
+                if isinstance(x, ast.Call) and isinstance(x.func, ast.Attribute) and x.func.attr == "next" and is_name(x.func.value, "self"):
+                    for a in sorted(cursor - defined):
+                        problems.append((a, f"`{ast.unparse(x)}` is called while `self.{a}` still holds the value of the previous run", getattr(node, "lineno", 0)))
+
+        def run(stmts, defined, depth):
+            for st in stmts:
+                if isinstance(st, ast.Expr) and isinstance(st.value, ast.Constant):
+                    continue
+                if isinstance(st, ast.If):
+                    reads(st.test, defined)
+                    d1 = run(st.body, set(defined), depth)
+                    d2 = run(st.orelse, set(defined), depth)
+                    defined |= d1 & d2
+                    continue
+                sup = [x for x in ast.walk(st) if isinstance(x, ast.Call) and isinstance(x.func, ast.Attribute) and x.func.attr == "initialize" and isinstance(x.func.value, ast.Call) and dotted(x.func.value.func) == "super"]
+                if sup:
+                    if depth + 1 >= len(inits):
+                        raise AnalysisError(f"{c.ref}: super().initialize not resolvable")
+                    defined |= run(strip_doc(inits[depth + 1].node.body), set(defined), depth + 1)
+                    continue
+                if isinstance(st, (ast.Assign, ast.AnnAssign)) and getattr(st, "value", None) is not None:
+                    reads(st.value, defined)
+                    for t in st.targets if isinstance(st, ast.Assign) else [st.target]:
+                        if isinstance(t, ast.Attribute) and is_name(t.value, "self"):
+                            defined.add(t.attr)
+                    continue
+                reads(st, defined)
+            return defined
+
+        defined = run(strip_doc(inits[0].node.body), set(), 0)
+        for a in sorted(cursor - defined):
+            if not any(p[0] == a for p in problems):
+                problems.append((a, f"`self.{a}` is re-bound by `next` but never assigned by `initialize`", inits[0].node.lineno))
+        rep.saw("initialize chains", f"{c.name}: cursor {sorted(cursor)}; initialize via {[f.qualname for f in inits]}")
+        rep.oblige(f"initialize-resets-cursor:{c.name}", not problems, [p[1] for p in problems])
+        seen = set()
+        for a, msg, line in problems:
+            if a in seen:
+                continue
+            seen.add(a)
+            rep.violation("C09.initialize-resets-cursor", f"{inits[0].ref}::{c.name}::{a}", f"{c.name}: {msg}: an interrupt object that was used before does not restart its schedule (the answers of a second run continue from the cursor of the first)", line=line)
+
+
 def check(tier: str) -> Report:
     rep = Report("C09", tier, "other", "static: CFG + reaching definitions + sign/integer-valued/ordering-fact domains over the cursor updates")
     rep.explanation = (
@@ -566,6 +660,7 @@ def check(tier: str) -> Report:
     check_logarithmic(rep, ix)
     check_parse(rep, ix)
     check_double_precision_state(rep, ix)
+    check_initialize_resets_cursor(rep, ix)
     rep.assumptions += [
         "dt > 0, factor > 1 (geometric) resp. factor >= 1 (logarithmic), the fixed list is increasing (documented preconditions)",
         "queries are non-decreasing and initialize() precedes next()",
